@@ -24,7 +24,14 @@ KWAGRS_TEMPLATE = "{% for key, value in kwargs.items() %}" \
 keywords_set = set(keyword.kwlist)
 builtins_set = set(__builtins__.keys())
 other_common_names_set = {'datetime', 'time', 'date', 'defaultdict', 'schema'}
-blacklist_words = frozenset(keywords_set | builtins_set | other_common_names_set)
+# Names that generated modules may import: a field or class with such a name would rebind the import
+imported_names_set = {
+    'attr', 'dataclass', 'field', 'optional', 'convert_strings', 'ClassType',
+    'BaseModel', 'Field', 'SQLModel',
+    'Any', 'Dict', 'List', 'Literal', 'Optional', 'Tuple', 'Union',
+    'IntString', 'FloatString', 'BooleanString', 'IsoDateString', 'IsoTimeString', 'IsoDatetimeString',
+}
+blacklist_words = frozenset(keywords_set | builtins_set | other_common_names_set | imported_names_set)
 ones = ['', 'one', 'two', 'three', 'four', 'five', 'six', 'seven', 'eight', 'nine']
 
 
